@@ -163,14 +163,20 @@ class Registry:
         self._unsup('dict.update', line)
 
     def dictcomp(self, eng, n, fr, q):
-        # over-approximation: a fresh dict of the right types whose contents are left unconstrained (the element
-        # expressions were evaluated for a generic element, so their safety obligations are generated)
         _, vars_, guard, elt, coll = q
         k, v = elt
         d = eng.new_dict(eng.value_type(k), eng.value_type(v))
         hn, ha = eng.dict_has(d)
-        eng.heap.set(hn, z3.Store(ha, d.ref, eng.run.fresh('dc_has', ha[d.ref].sort())))
         vn, va = eng.dict_val(d)
+        if len(vars_) == 1 and isinstance(k, SV) and k.t.eq(vars_[0]) and isinstance(coll, (DictV, ValuesView)):
+            # exact summary when the key of the new dict is the iterated key of the source dict (keys are then
+            # distinct): has'[k] <=> k in source and the filter holds; val'[k] = the value expression at k
+            eng.heap.set(hn, z3.Store(ha, d.ref, eng.def_array(vars_, guard)))
+            eng.heap.set(vn, z3.Store(va, d.ref, eng.def_array(vars_, eng.coerce_term(eng.materialize(v, d.vty), d.vty))))
+            return d
+        # over-approximation: a fresh dict of the right types whose contents are left unconstrained (the element
+        # expressions were evaluated for a generic element, so their safety obligations are generated)
+        eng.heap.set(hn, z3.Store(ha, d.ref, eng.run.fresh('dc_has', ha[d.ref].sort())))
         eng.heap.set(vn, z3.Store(va, d.ref, eng.run.fresh('dc_val', va[d.ref].sort())))
         return d
 
